@@ -53,20 +53,20 @@ type Deferred struct {
 }
 
 type Frame struct {
-	Fn       *ssa.Function
-	Vals     map[ssa.Value]Val
-	Cells    map[*ssa.Alloc]Term
-	Defers   []Deferred
-	Parent   *Frame
-	Depth    int
-	OnReturn func(st *State, caller *Frame, res []Val)
-	OnPanic  func(st *State, caller *Frame, v Term)
+	Fn         *ssa.Function
+	Vals       map[ssa.Value]Val
+	Cells      map[*ssa.Alloc]Term
+	Defers     []Deferred
+	Parent     *Frame
+	Depth      int
+	OnReturn   func(st *State, caller *Frame, res []Val)
+	OnPanic    func(st *State, caller *Frame, v Term)
 	paramTypes map[string]types.Type
-	LoopSeen map[*ssa.BasicBlock]bool
-	Entry    *State // snapshot at entry (for old())
-	Params   map[string]Val
-	IterOf   map[ssa.Value]*IterState
-	ID       int
+	LoopSeen   map[*ssa.BasicBlock]bool
+	Entry      *State // snapshot at entry (for old())
+	Params     map[string]Val
+	IterOf     map[ssa.Value]*IterState
+	ID         int
 	// Site is the call instruction in the parent frame (inlined closures)
 	Site ssa.Instruction
 }
@@ -82,19 +82,19 @@ type IterState struct {
 }
 
 type State struct {
-	PC       []Term
-	Mem      map[string]Term // leaf memory per type key
-	MemSort  map[string]Sort
-	Ghost    map[string]Term // named ghost scalars / arrays
-	Calls    []CallEvent
-	CallCnt  map[string]Term // designator -> count term
-	Closures map[string]*Closure
-	Derivs   map[string]*MemDeriv
-	Fresh    map[string]bool // address roots allocated on this path (by term string)
-	Seq      int
-	Panicked bool
-	Trace    []string
-	Dead     bool
+	PC           []Term
+	Mem          map[string]Term // leaf memory per type key
+	MemSort      map[string]Sort
+	Ghost        map[string]Term // named ghost scalars / arrays
+	Calls        []CallEvent
+	CallCnt      map[string]Term // designator -> count term
+	Closures     map[string]*Closure
+	Derivs       map[string]*MemDeriv
+	Fresh        map[string]bool // address roots allocated on this path (by term string)
+	Seq          int
+	Panicked     bool
+	Trace        []string
+	Dead         bool
 	AllHavocs    []func(addr Term) Term
 	GhostPrev    []ghostStep
 	Closes       []Term
@@ -109,18 +109,18 @@ func NewState() *State {
 
 func (s *State) Clone() *State {
 	n := &State{
-		PC:       append([]Term(nil), s.PC...),
-		Mem:      make(map[string]Term, len(s.Mem)),
-		MemSort:  s.MemSort, // append-only, shared
-		Ghost:    make(map[string]Term, len(s.Ghost)),
-		Calls:    append([]CallEvent(nil), s.Calls...),
-		CallCnt:  make(map[string]Term, len(s.CallCnt)),
-		Closures: s.Closures, // append-only, keyed by unique fresh terms
-		Derivs:   s.Derivs,   // append-only
-		Fresh:    make(map[string]bool, len(s.Fresh)),
-		Seq:      s.Seq,
-		Panicked: s.Panicked,
-		Trace:    append([]string(nil), s.Trace...),
+		PC:           append([]Term(nil), s.PC...),
+		Mem:          make(map[string]Term, len(s.Mem)),
+		MemSort:      s.MemSort, // append-only, shared
+		Ghost:        make(map[string]Term, len(s.Ghost)),
+		Calls:        append([]CallEvent(nil), s.Calls...),
+		CallCnt:      make(map[string]Term, len(s.CallCnt)),
+		Closures:     s.Closures, // append-only, keyed by unique fresh terms
+		Derivs:       s.Derivs,   // append-only
+		Fresh:        make(map[string]bool, len(s.Fresh)),
+		Seq:          s.Seq,
+		Panicked:     s.Panicked,
+		Trace:        append([]string(nil), s.Trace...),
 		AllHavocs:    append([]func(addr Term) Term(nil), s.AllHavocs...),
 		GhostPrev:    append([]ghostStep(nil), s.GhostPrev...),
 		Closes:       append([]Term(nil), s.Closes...),
